@@ -25,6 +25,10 @@ def runSteps (env : Env) : List Step → TxSt → TxSt × Res
   | .fail tag :: _, st => (st.raise (.caller tag), .err (.caller tag))
   -- first execution of the body (a later execution runs `laterBody`, which no longer contains the step)
   | .fail1 tag :: _, st => (st.raise (.caller tag), .err (.caller tag))
+  | .link op id ts :: rest, st =>
+    match (linkStep op id ts st.db).1 with
+    | some e => ({ st.raise e with inexact := true }, .err e)
+    | none => runSteps env rest { st with db := (linkStep op id ts st.db).2 }
   | .addCommit tag :: rest, st =>
     runSteps env rest { st with ctx := { st.ctx with commitActions := st.ctx.commitActions ++ [tag] } }
   | .addPre tag fails :: rest, st =>
